@@ -58,9 +58,17 @@ class Run:
         if rc != 0:
             self.broken.append(("translator", "gen_kernels", err.strip()))
         rc, out, err = sh([sys.executable, os.path.join(VERIF, "tools", "gen_consts.py"), self.repo,
-                           os.path.join(gen, "Consts.v"), os.path.join(gen, "WebpTables.v"), os.path.join(gen, "Mp4Dispatch.v")])
+                           os.path.join(gen, "Consts.v"), os.path.join(gen, "WebpTables.v")])
         if rc != 0:
             self.broken.append(("translator", "gen_consts", err.strip()))
+        # the arms of the MP4 top-level match (Props/C05d.v): a match the translator cannot read is C05's broken tie, nobody else's
+        disp = os.path.join(gen, "Mp4Dispatch.v")
+        rc, out, err = sh([sys.executable, os.path.join(VERIF, "tools", "gen_consts.py"), "--dispatch", self.repo, disp])
+        if rc != 0:
+            if os.path.exists(disp):
+                os.remove(disp)
+            if self.prop == "C05":
+                self.broken.append(("translator", "gen_consts --dispatch", err.strip()))
         sh(["sh", os.path.join(COQ, "mk_project.sh")])
         self.timings["regen"] = time.time() - t
 
